@@ -353,11 +353,20 @@ def c07(ctx, e):
         ctx.violation("no-termination", f"execution not terminal after {len(e.invocations)} invocations: "
                                         f"{[i.outcome for i in e.invocations][-6:]}", scen_of(e))
         return
+    # branches orphaned by an early completion are deliberately abandoned: only bodies under not-yet-completed contexts count
+    done_ctx = {u["id"] for u in e.backend.stream if u["type"] == "CONTEXT" and u["action"] in ("SUCCEED", "FAIL")}
     for r in e.invocations:
         if r.outcome == "PENDING" and r.running_fns_at_return:
-            ctx.violation("pending-while-function-running", f"invocation {r.inv} returned PENDING while {r.running_fns_at_return} were executing",
-                          scen_of(e))
-            return
+            live = []
+            for p in r.running_fns_at_return:
+                comps = p.split("/")
+                anc = ["/".join(comps[:k]) for k in range(1, len(comps) + 1)]
+                if not any(path_id(a) in done_ctx for a in anc):
+                    live.append(p)
+            if live:
+                ctx.violation("pending-while-function-running", f"invocation {r.inv} returned PENDING while {live} were executing",
+                              scen_of(e))
+                return
 
 
 # ---- C18 ---------------------------------------------------------------------------------------------------
